@@ -214,6 +214,12 @@ Theorem C10_tp_parse_and_join_canonical : forall m i p q f path' query' F,
   tp_assemble_did m i = Ok (tp_canon m i [] None None)
   /\ tp_transform (tp_canon m i p q f) m i path' query' F = Ok (tp_canon m i path' query' F).
 Proof. exact (fun m i p q f path' query' F => conj (assemble_did_canon m i) (transform_canon m i p q f path' query' F)). Qed.
+(* and so the join model used above (did_url_join, which hands the transformed components straight to the RelativeDIDUrl setters) IS the
+   function that carries the third-party value through assembly, transform_references, the accessors of from_base_did_url, the clearing
+   setters and CoreDID::try_from - on every receiver whose DID text is "did:" method ":" id *)
+Theorem C10_join_model_is_full_pipeline : forall u seg,
+  u_did u = [100; 105; 100; 58] ++ u_method u ++ [58] ++ u_mid u -> did_url_join_full u seg = did_url_join u seg.
+Proof. exact join_full_eq. Qed.
 (* the hypotheses are satisfiable: did:ab:c:d/p?q=1#f *)
 Example C10_wf_example : wf_parts [97; 98] [99; 58; 100] [47; 112] (Some [113; 61; 49]) (Some [102]).
 Proof. constructor; [split; [discriminate|reflexivity] | split; [discriminate|reflexivity] | right; eexists; split; reflexivity
@@ -275,6 +281,7 @@ Print Assumptions C10_join_base_assembled.
 Print Assumptions C10_tp_setters_canonical.
 Print Assumptions C10_tp_canon_accessors.
 Print Assumptions C10_tp_parse_and_join_canonical.
+Print Assumptions C10_join_model_is_full_pipeline.
 Print Assumptions C10_eq_iff_ord_equal.
 Print Assumptions C10_ord_antisymmetric.
 Print Assumptions C10_eq_same_hash.
